@@ -261,8 +261,10 @@ def _obj_snap(o) -> tuple:
     return (type(o).__name__,) + tuple((k, fx(v) if isinstance(v, float) else str(v)) for k, v in sorted(vars(o).items()) if not k.startswith("_sim"))
 
 
-def snapshot(engine) -> tuple:
-    """Canonical state of an engine: everything an operation on *another* engine must not change."""
+def snapshot(engine, flags: bool = True) -> tuple:
+    """Canonical state of an engine: everything an operation on *another* engine must not change.
+    flags=False leaves out the per-rule activation degree / triggered flag (incidental state that cannot
+    influence any later output: every activation method resets it first)."""
     ins = tuple((v.name, v.enabled, fx(v.minimum), fx(v.maximum), v.lock_range, cv(v.value), tuple(_term_snap(t) for t in v.terms))
                 for v in engine.input_variables)
     outs = tuple((v.name, v.enabled, fx(v.minimum), fx(v.maximum), v.lock_range, v.lock_previous, fx(v.default_value),
@@ -270,8 +272,9 @@ def snapshot(engine) -> tuple:
                   tuple((a.term.name, cv(a.degree), type(a.implication).__name__) for a in v.fuzzy.terms),
                   tuple(_term_snap(t) for t in v.terms)) for v in engine.output_variables)
     blocks = tuple((b.name, b.enabled, _obj_snap(b.conjunction), _obj_snap(b.disjunction), _obj_snap(b.implication), _obj_snap(b.activation),
-                    tuple((r.antecedent.text, r.consequent.text, r.enabled, fx(r.weight), r.is_loaded(), cv(r.activation_degree),
-                           tuple(bool(x) for x in np.atleast_1d(r.triggered))) for r in b.rules)) for b in engine.rule_blocks)
+                    tuple((r.antecedent.text, r.consequent.text, r.enabled, fx(r.weight), r.is_loaded()) + (
+                        (cv(r.activation_degree), tuple(bool(x) for x in np.atleast_1d(r.triggered))) if flags else ())
+                        for r in b.rules)) for b in engine.rule_blocks)
     return (ins, outs, blocks)
 
 
@@ -331,8 +334,13 @@ def graph_problem(engine) -> str:
     return ""
 
 
+def stale_rule_flags(engine) -> bool:
+    return any(cv(r.activation_degree) != (fx(0.0),) or bool(np.any(r.triggered)) for b in engine.rule_blocks for r in b.rules)
+
+
 def restart_problem(engine) -> str:
-    """'' when the engine looks freshly restarted."""
+    """'' when the engine looks freshly restarted (what C13 names: inputs NaN, outputs and fuzzy outputs cleared,
+    rules reloaded against this engine's own objects)."""
     for v in engine.input_variables:
         if cv(v.value) != ("nan",):
             return f"input {v.name} is {cv(v.value)} after restart"
@@ -345,8 +353,7 @@ def restart_problem(engine) -> str:
         for ri, r in enumerate(b.rules):
             if not r.is_loaded():
                 return f"rule {bi}.{ri} not loaded after restart"
-            if cv(r.activation_degree) != (fx(0.0),) or bool(np.any(r.triggered)):
-                return f"rule {bi}.{ri} keeps activation state after restart"
+
     return graph_problem(engine)
 
 
